@@ -19,7 +19,7 @@ from ..core import Violation, h64, digest, state_digest, substream, np_stream
 from ..data import make_data
 from ..estimators import ALL, cls_of, tuple_size, SPEC, fit_args
 from ..histgen import gen_history, history_shrink_moves
-from ..machine import Machine, same_outputs
+from ..machine import Machine, same_outputs, layout_signature
 from . import c17
 
 ID = "C18"
@@ -267,6 +267,13 @@ class Oracle(object):
         a = c17._first_diff(live["state_before"], live["state_after"])
         raise Violation("pickle_preserves", "cls=%s,attr=%s" % (h.name, a),
                         "fitted state differs after pickle round trip (%s)" % ev.get("how"))
+      if list(live["before_out"]) != list(live["after_out"]) and live.get("old_est") is not None and \
+          layout_signature(live["old_est"]) != layout_signature(h.est):
+        la, lb = layout_signature(live["old_est"]), layout_signature(h.est)
+        k_ = [x for x in sorted(la) if la.get(x) != lb.get(x)][0]
+        raise Violation("pickle_preserves", "cls=%s,outputs,layout_of=%s" % (h.name, k_),
+                        "query outputs are not bit-identical after a pickle round trip: the fitted array %s is "
+                        "stored in a non-contiguous layout %s and comes back as %s" % (k_, la.get(k_), lb.get(k_)))
       if not same_outputs(live["before_out"], live["after_out"], m.cov):
         self._maybe_blas(h, live)
         raise Violation("pickle_preserves", "cls=%s,outputs" % h.name,
@@ -357,7 +364,7 @@ def gen_plan(seed, tier):
       seed, tier, n_ops=(5, 14), dmax=5, pre_p=0.35, fresh_p=0.01 if tier == "thorough" else 0.006,
       weights=dict(query=22, refit=10, threshold=4, calibrate=2, handout=0, mutate=0,
                    restart=16, clone=14, ambient=3, eigsh=2, set_nondata=8, failfit=2,
-                   fault=0, new=14, swap_pre=6, interrupt=3, alias=5), failfirst_p=0.25, view_p=0.3, wide_p=0.03)
+                   fault=0, new=14, swap_pre=6, interrupt=3, alias=5), failfirst_p=0.25, view_p=0.3, wide_p=0.06)
 
 
 SWEEP_SEED = [None]
